@@ -279,6 +279,83 @@ def _mutation_scan():
     return bad
 
 
+def _int_literals(rel):
+    return {n.value for n in ast.walk(ast.parse(_src(rel))) if isinstance(n, ast.Constant) and type(n.value) is int}
+
+
+OFFICIAL_MUTATORS = {"__init__", "set_witness", "set_unspents", "unspents_from_db", "parse_unspents", "sign"}
+OBSERVED_CLASSES = [("pycoin/coins/Tx.py", "Tx"), ("pycoin/coins/bitcoin/Tx.py", "Tx"), ("pycoin/coins/groestlcoin/Tx.py", "Tx"),
+                    ("pycoin/coins/litecoin/__init__.py", "LTCTx"), ("pycoin/coins/bcash/Tx.py", "Tx"), ("pycoin/coins/bgold/Tx.py", "Tx"),
+                    ("pycoin/coins/bitcoin/TxIn.py", "TxIn"), ("pycoin/coins/bitcoin/TxOut.py", "TxOut"),
+                    ("pycoin/coins/bitcoin/Spendable.py", "Spendable")]
+CACHE_WORDS = ("cache", "memo", "lru")
+
+
+def _observer_writes():
+    bad = []
+    for rel, cname in OBSERVED_CLASSES:
+        tree = ast.parse(_src(rel))
+        short = rel.split("/")[-2] if rel.endswith("__init__.py") else "/".join(rel.split("/")[-2:])[:-3]
+        # module level: mutable caches (dict/list/set literals or calls assigned to a lower-case or _cache-like name)
+        for n in tree.body:
+            if isinstance(n, (ast.Assign, ast.AnnAssign)):
+                tg = n.targets[0] if isinstance(n, ast.Assign) else n.target
+                if isinstance(tg, ast.Name) and any(w in tg.id.lower() for w in CACHE_WORDS):
+                    bad.append("%s:module:%s" % (short, tg.id))
+        cls = [c for c in tree.body if isinstance(c, ast.ClassDef) and c.name == cname]
+        if len(cls) != 1:
+            raise G.GenError("class %s not found in %s" % (cname, rel))
+        for f in cls[0].body:
+            if not isinstance(f, (ast.FunctionDef, ast.AsyncFunctionDef)):
+                continue
+            tag = "%s.%s.%s" % (short, cname, f.name)
+            for dec in f.decorator_list:
+                if any(w in ast.unparse(dec).lower() for w in CACHE_WORDS + ("cached_property",)):
+                    bad.append("%s:decorator:%s" % (tag, ast.unparse(dec)))
+            if f.name in OFFICIAL_MUTATORS:
+                continue
+            first = f.args.args[0].arg if f.args.args else None
+            is_static = any(ast.unparse(d) == "staticmethod" for d in f.decorator_list)
+            selfname = None if is_static else first
+            for n in ast.walk(f):
+                if isinstance(n, (ast.Global, ast.Nonlocal)):
+                    bad.append("%s:global:%s" % (tag, ",".join(n.names)))
+                tgs = []
+                if isinstance(n, ast.Assign):
+                    tgs = n.targets
+                elif isinstance(n, (ast.AugAssign, ast.AnnAssign)):
+                    tgs = [n.target] if not (isinstance(n, ast.AnnAssign) and n.value is None) else []
+                elif isinstance(n, ast.Delete):
+                    tgs = n.targets
+                elif isinstance(n, (ast.For, ast.AsyncFor)):
+                    tgs = [n.target]
+                elif isinstance(n, (ast.With, ast.AsyncWith)):
+                    tgs = [i.optional_vars for i in n.items if i.optional_vars is not None]
+                elif isinstance(n, ast.NamedExpr):
+                    tgs = [n.target]
+                for tg in tgs:
+                    for x in ast.walk(tg):
+                        if isinstance(x, (ast.Attribute, ast.Subscript)):
+                            root = x
+                            while isinstance(root, (ast.Attribute, ast.Subscript)):
+                                root = root.value
+                            if selfname is not None and isinstance(root, ast.Name) and root.id == selfname:
+                                bad.append("%s:store:%s" % (tag, ast.unparse(x)))
+                if isinstance(n, ast.Call):
+                    fn = n.func
+                    if isinstance(fn, ast.Name) and fn.id in ("setattr", "delattr") and n.args and isinstance(n.args[0], ast.Name) \
+                            and n.args[0].id == selfname:
+                        bad.append("%s:call:%s" % (tag, fn.id))
+                    if isinstance(fn, ast.Attribute) and fn.attr in ("__setattr__", "__delattr__", "setdefault", "update") \
+                            and selfname is not None and ast.unparse(fn.value).startswith(selfname + ".__dict__"):
+                        bad.append("%s:call:%s" % (tag, ast.unparse(fn)))
+                    if isinstance(fn, ast.Attribute) and fn.attr in ("__setattr__", "__delattr__") and ast.unparse(fn.value) == "object":
+                        bad.append("%s:call:%s" % (tag, ast.unparse(fn)))
+                if isinstance(n, ast.Attribute) and n.attr == "__dict__" and isinstance(n.value, ast.Name) and n.value.id == selfname:
+                    bad.append("%s:__dict__" % tag)
+    return sorted(set(bad))
+
+
 def _coq_chars(s):
     for c in s:
         if not (32 < ord(c) < 127) or c == '"':
@@ -382,35 +459,65 @@ def gen_txconsts():
         t += "Definition coin_%s : list byte := %s.\n" % (name, G.coq_bytes(name.encode()))
     t += "Definition satoshi_per_coin : Z := %s.\n" % G.coq_Z(int(spc))
     t += "Definition max_block_size : Z := %s.\n\n" % G.coq_Z(lit_bs)
-    # ---- coinbase constants
-    cb = _cmp_consts(_method("pycoin/coins/bitcoin/TxIn.py", "TxIn", "is_coinbase"))
-    if len(cb) != 1:
-        raise G.GenError("TxIn.is_coinbase: expected one integer literal in a comparison, got %r" % (cb,))
+    # ---- coinbase constants: found by PROBING the live code, cross-checked against the integer literals / module
+    # constants of the source (so a restructured but equivalent test is still understood, a changed one changes the table)
     if not isinstance(MI.ZERO, bytes):
         raise G.GenError("TxIn.ZERO is not bytes")
-    src_ic = ast.unparse(_method("pycoin/coins/bitcoin/TxIn.py", "TxIn", "is_coinbase").body[-1])
-    if src_ic != "return self.previous_hash == ZERO and self.previous_index == %d" % cb[0]:
-        raise G.GenError("TxIn.is_coinbase: unexpected body %r" % src_ic)
-    t += "(* TxIn.is_coinbase: previous_hash == ZERO and previous_index == <literal> *)\n"
+    src_ints = _int_literals("pycoin/coins/bitcoin/TxIn.py") | {v for v in vars(MI).values() if type(v) is int}
+    cands = sorted({0, 1, 2, 0x7FFFFFFF, 0xFFFFFFFE, 0xFFFFFFFF, 0x100000000, -1} | src_ints)
+    null_idx = [i for i in cands if MI.TxIn(MI.ZERO, i).is_coinbase() is True]
+    if len(null_idx) != 1 or null_idx[0] not in src_ints:
+        raise G.GenError("TxIn.is_coinbase: cannot determine the null index by probing (true for %r)" % (null_idx,))
+    for hh in (b"\x01" + MI.ZERO[1:], MI.ZERO[:-1] + b"\x80", MI.ZERO[:-1], MI.ZERO + b"\0", b""):
+        if MI.TxIn(hh, null_idx[0]).is_coinbase() is not False:
+            raise G.GenError("TxIn.is_coinbase: true for a hash other than ZERO")
+    t += "(* TxIn.is_coinbase: true exactly for previous_hash == ZERO and this previous_index (probed; literal in the source) *)\n"
     t += "Definition txin_zero_hash : list byte := %s.\n" % G.coq_bytes(MI.ZERO)
-    t += "Definition txin_null_index : Z := %s.\n" % G.coq_Z(cb[0])
-    fn = _method("pycoin/coins/bitcoin/Tx.py", "Tx", "_check_txs_in")
-    bounds = None
-    for n in ast.walk(fn):
-        if isinstance(n, ast.Compare) and len(n.ops) == 2 and all(isinstance(o, ast.LtE) for o in n.ops) \
-                and isinstance(n.left, ast.Constant) and isinstance(n.comparators[1], ast.Constant) \
-                and ast.unparse(n.comparators[0]) == "len(self.txs_in[0].script)":
-            if bounds is not None:
-                raise G.GenError("_check_txs_in: two script-length comparisons")
-            bounds = (n.left.value, n.comparators[1].value)
-    if bounds is None:
-        raise G.GenError("_check_txs_in: no `a <= len(self.txs_in[0].script) <= b` comparison")
-    t += "(* Tx._check_txs_in: `%d <= len(self.txs_in[0].script) <= %d` *)\n" % bounds
+    t += "Definition txin_null_index : Z := %s.\n" % G.coq_Z(null_idx[0])
+    from pycoin.coins.exceptions import ValidationFailureError as VFE
+
+    def cb_ok(L):
+        tx = MT.Tx(1, [MI.TxIn(MI.ZERO, null_idx[0], b"\x51" * L)], [MT.Tx.TxOut(1, b"")])
+        try:
+            tx._check_txs_in()
+            return True
+        except VFE:
+            return False
+    ok = [L for L in range(0, 400) if cb_ok(L)]
+    if not ok or ok != list(range(ok[0], ok[-1] + 1)) or cb_ok(1000) or cb_ok(70000):
+        raise G.GenError("_check_txs_in: accepted coinbase script lengths are not one interval: %r" % (ok[:5],))
+    tx_ints = _int_literals("pycoin/coins/bitcoin/Tx.py")
+    if ok[0] not in tx_ints or ok[-1] not in tx_ints:
+        raise G.GenError("_check_txs_in: probed bounds %d..%d are not literals of Tx.py" % (ok[0], ok[-1]))
+    bounds = (ok[0], ok[-1])
+    t += "(* Tx._check_txs_in: a coinbase script of %d..%d bytes is accepted (probed lengths 0..399, 1000, 70000; literals in the source) *)\n" % bounds
     t += "Definition coinbase_script_min : Z := %s.\nDefinition coinbase_script_max : Z := %s.\n\n" % (G.coq_Z(bounds[0]), G.coq_Z(bounds[1]))
+    # ---- which hash each Tx class applies to the witness-stripped serialisation (probed on a transaction WITH witness data)
+    import hashlib
+    rows = []
+    for name, cls, _ in classes:
+        ti = cls.TxIn(bytes(range(32)), 1, b"\x51", 7)
+        ti.witness = [b"", b"\x30" * 71]
+        ptx = cls(2, [ti], [cls.TxOut(5, b"\x6a")], 9)
+        stripped = ptx.as_bin(include_witness_data=False)
+        full = ptx.as_bin()
+        algs = {"dsha256": lambda b: hashlib.sha256(hashlib.sha256(b).digest()).digest(), "sha256": lambda b: hashlib.sha256(b).digest()}
+        found = [a for a, f in algs.items() if bytes(ptx.hash()) == f(stripped) and bytes(ptx.w_hash()) == f(full)
+                 and bytes(ptx.hash(hash_type=1)) == f(stripped + b"\x01\0\0\0")]
+        if len(found) != 1:
+            raise G.GenError("%s: Tx.hash/w_hash is neither dsha256 nor sha256 of the stripped/full serialisation" % name)
+        rows.append("(%s, %s)" % (G.coq_bytes(name.encode()), G.coq_bytes(found[0].encode())))
+    t += "(* per Tx class: the hash applied by hash() to the stripped and by w_hash() to the full serialisation (probed) *)\n"
+    t += "Definition coin_hash_alg : list (list byte * list byte) :=\n  [ " + ";\n    ".join(rows) + " ].\n\n"
     # ---- frame scan
     bad = _mutation_scan()
     t += "(* attribute/subscript stores, deletes and mutating calls found in Tx.check, its helpers, is_coinbase *)\n"
     t += "Definition check_mutations : list string := %s.\n" % _coq_str_list(bad)
+    # ---- history independence: no OBSERVER method of the transaction classes stores into its object (memoisation,
+    # caches, counters), at module level, or is wrapped by a caching decorator
+    t += "(* stores to self.<attr> / setattr / __dict__ / global state / caching decorators in every method of Tx (all coin classes),\n"
+    t += "   TxIn, TxOut, Spendable except the constructors and the official mutators %s *)\n" % ", ".join(sorted(OFFICIAL_MUTATORS))
+    t += "Definition observer_writes : list string := %s.\n" % _coq_str_list(_observer_writes())
     return t
 
 
